@@ -238,8 +238,10 @@ class YAML(Filetype):
     def build_tree_handling_errors(self, path: str, options: Optional[BuildOptions] = None) -> Union[str, TreeNode]:
         try:
             return self.build_tree(path=path, options=options)
-        except (YAMLError, ValueError) as ye:
-            # ValueError: valid YAML holding a value with no node type (e.g., a timestamp or a set)
+        except (YAMLError, ValueError, AttributeError, LookupError) as ye:
+            # ValueError: valid YAML holding a value with no node type (e.g., a timestamp or a set), or a scalar that
+            # does not fit its tag (`2020-13-45`); PyYAML's constructors let AttributeError, KeyError and IndexError
+            # escape for other such scalars (`!!timestamp "42"`, `!!bool "42"`, `!!float ""`)
             return f'Error parsing {os.path.basename(path)}: {ye})'
 
     def get_default_formatter(self) -> YAMLFormatter:
